@@ -323,6 +323,17 @@ func (t *Translator) loadPath(st *State, p *Path, pos token.Pos) string {
 		v = p.tmp
 	case p.global != nil:
 		v = t.arrTerm(t.globalArr(p.global), st.heap)
+		if p.global.Pkg != nil && !isRepoPkg(p.global.Pkg.Pkg.Path()) && len(p.steps) == 0 {
+			// A-ext: package-level singletons of dependencies (e.g. runtime.DefaultUnstructuredConverter) are initialised
+			switch p.global.Type().(*types.Pointer).Elem().Underlying().(type) {
+			case *types.Interface:
+				t.assume(st, "(not (= (itag "+v+") 0))")
+				t.vc.note("A-ext: external package variable %s assumed initialised (non-nil)", p.global.String())
+			case *types.Pointer:
+				t.assume(st, "(not (= "+v+" 0))")
+				t.vc.note("A-ext: external package variable %s assumed initialised (non-nil)", p.global.String())
+			}
+		}
 	default:
 		t.safety(st, "nilderef", "(not (= "+p.ref+" 0))", pos, "nil")
 		if _, isStruct := p.refT.Underlying().(*types.Struct); isStruct {
@@ -1079,6 +1090,22 @@ func (t *Translator) enterLoop(li *loopInfo, ins []edgeIn) *State {
 	for _, a := range locals {
 		if v, live := h.locals[a]; live {
 			t.assumeTyped(h, v, a.Type().(*types.Pointer).Elem())
+			if a.Comment == "rangeindex" {
+				// the hidden index of a range-over-slice loop starts at -1 and is only incremented
+				t.assume(h, "(>= "+v+" (- 1))")
+				// ... and at the loop head it is below the length that was taken before the loop
+				for _, in := range li.header.Instrs {
+					if bo, ok := in.(*ssa.BinOp); ok && bo.Op == token.LSS {
+						if inc, ok := bo.X.(*ssa.BinOp); ok && inc.Op == token.ADD {
+							if ld, ok := inc.X.(*ssa.UnOp); ok && ld.X == ssa.Value(a) {
+								if lt, known := t.vals[bo.Y]; known {
+									t.assume(h, "(or (< "+v+" "+lt+") (and (= "+v+" (- 1)) (<= "+lt+" 0)))")
+								}
+							}
+						}
+					}
+				}
+			}
 		}
 	}
 	if li.spec != nil {
